@@ -49,7 +49,12 @@ struct ServerRig
         { std::lock_guard<std::mutex> g(ct.m); ct.count++; ct.last = sid; }
         ct.cv.notify_all();
       });
-      s->setOnTextMessage([this](SessionId sid, const std::string &t) { ev.msg((uint64_t)sid, 't', t.data(), t.size()); });
+      Srv *sp = s.get();
+      // the application side of the 'a' streams: the trigger message makes the handler start the close handshake
+      s->setOnTextMessage([this, sp](SessionId sid, const std::string &t) {
+        ev.msg((uint64_t)sid, 't', t.data(), t.size());
+        if (t == "vf-app-close") sp->sendClose(sid, 1000, "bye");
+      });
       s->setOnBinaryMessage([this](SessionId sid, const std::vector<std::uint8_t> &b) { ev.msg((uint64_t)sid, 'b', b.data(), b.size()); });
       s->setOnClose([this](SessionId sid, std::uint16_t code, const std::string &reason) { ev.close((uint64_t)sid, code, reason); });
       s->setOnError([this](SessionId sid, const std::string &w) { ev.err((uint64_t)sid, w); });
